@@ -98,17 +98,26 @@ theorem narrow_evalRT :
     obtain ⟨b, m, a⟩ := t
     obtain ⟨b', m', a'⟩ := t'
     simp only [HasTyR] at h
-    obtain ⟨ha, hm, hk⟩ := h
-    obtain ⟨hd1, hd2⟩ := hs.dims
-    simp only at hd1 hd2 ha hm
-    subst hd1; subst hd2; subst ha
-    cases m with
-    | zero => exact absurd rfl hm
-    | succ k =>
-      have ih := narrow_evalRTFields kvs ⟨b, 0, k⟩ ⟨b', 0, k⟩ f hk (hs.redim 0 k)
-      have c : ((0 : Nat) == 0 && (k + 1 != 0)) = true := by simp
-      simp only [evalRT, c, if_true, Nat.add_sub_cancel, narrow_obj hF, ih.1, HasTyR]
-      exact ⟨trivial, trivial, by simp, ih.2⟩
+    rcases h with ⟨ha, hm, hk⟩ | ⟨ha, hm, hl, hj⟩
+    · obtain ⟨hd1, hd2⟩ := hs.dims
+      simp only at hd1 hd2 ha hm
+      subst hd1; subst hd2; subst ha
+      cases m with
+      | zero => exact absurd rfl hm
+      | succ k =>
+        have ih := narrow_evalRTFields kvs ⟨b, 0, k⟩ ⟨b', 0, k⟩ f hk (hs.redim 0 k)
+        have c : ((0 : Nat) == 0 && (k + 1 != 0)) = true := by simp
+        simp only [evalRT, c, if_true, Nat.add_sub_cancel, narrow_obj hF, ih.1, HasTyR]
+        exact ⟨trivial, Or.inl ⟨trivial, by simp, ih.2⟩⟩
+    · -- a reference-free literal at an opaque type: the destination is opaque too
+      obtain ⟨ha', hm', hl'⟩ := hs.scalar_right ⟨ha, hm, hl⟩
+      simp only at ha hm hl ha' hm' hl'
+      subst ha; subst hm; subst ha'; subst hm'
+      refine ⟨?_, ?_⟩
+      · rw [narrow_scalar hF b' hl']
+        exact evalRT_json_eq st F ρ (.map kvs) ⟨b, 0, 0⟩ ⟨b', 0, 0⟩ f f (by simpa [jsonR] using hj) rfl hl rfl hl'
+      · simp only [HasTyR]
+        exact Or.inr ⟨trivial, trivial, hl', hj⟩
   | .struct kvs, t, t', f, h, hs => by
     obtain ⟨b, m, a⟩ := t
     obtain ⟨b', m', a'⟩ := t'
@@ -343,7 +352,13 @@ theorem proj1_evalRT :
   | .map kvs, t, fld, f, h, hfo => by
     obtain ⟨b, m, a⟩ := t
     simp only [HasTyR] at h
-    obtain ⟨ha, hm, hk⟩ := h
+    have h' : a = 0 ∧ m ≠ 0 ∧ HasTyRFields st ⟨b, 0, m - 1⟩ kvs := by
+      rcases h with h | ⟨_, _, hl, _⟩
+      · exact h
+      · -- an opaque type has no fields
+        obtain ⟨ft, hft, _⟩ := hfo
+        simp [fieldTy, hl] at hft
+    obtain ⟨ha, hm, hk⟩ := h'
     try simp only at ha hm
     subst ha
     cases m with
